@@ -537,6 +537,8 @@ class Summariser:
         self.env = {}
         self.fields = fields if fields is not None else {}
         self.facts = []
+        self.base_facts = 0         # facts inherited from the caller when inlined
+        self.exits = []             # [(branch facts, field state)] at every `return` of this function
         self.loop_marks = []        # [(len(facts) at loop entry, [jump snapshots])]
         self.self_name = None
         args = fn.args
@@ -568,6 +570,23 @@ class Summariser:
         return isinstance(e, ast.Name) and self.self_name is not None and e.id == self.self_name \
             and not self.is_classmethod
 
+    def exit_fields(self, term):
+        """Field state at function exit: the fall-through state merged (gated) with the states at
+        every early `return`."""
+        merged = None if term else dict(self.fields)
+        for facts, fields in reversed(self.exits):
+            if merged is None:
+                merged = dict(fields)
+                continue
+            if not facts:
+                continue
+            cond = facts[0] if len(facts) == 1 else ("and", tuple(facts))
+            out = {}
+            for k in set(merged) | set(fields):
+                out[k] = gate(cond, fields.get(k, ("field0", k)), merged.get(k, ("field0", k)))
+            merged = out
+        return merged if merged is not None else dict(self.fields)
+
     # -- blocks ----------------------------------------------------------------------------------
     def run(self):
         for n in ast.walk(self.fn):
@@ -579,7 +598,7 @@ class Summariser:
         s.ret = ret if ret is not None else ("const", None)
         if not term and ret is not None:
             s.ret = ret
-        s.fields, s.env = self.fields, self.env
+        s.fields, s.env = self.exit_fields(term), self.env
         s.module, s.cls, s.fn, s.owner = self.module, self.cls, self.fn, self.owner
         return s
 
@@ -649,6 +668,7 @@ class Summariser:
             if isinstance(st, ast.Return):
                 val = self.expr(st.value, events) if st.value is not None else ("const", None)
                 events.append(Return(val, st.lineno))
+                self.exits.append((tuple(self.facts[self.base_facts:]), dict(self.fields)))
                 return events, True, val
             if isinstance(st, ast.Raise):
                 exc = self.expr(st.exc, events) if st.exc is not None else ("const", None)
@@ -1203,11 +1223,12 @@ class Summariser:
                          stack=self.stack + (f"{node.lineno}:{node.col_offset}",), loops=self.loops,
                          owner=c, fnstack=self.fnstack)
         sub.facts = list(self.facts)
+        sub.base_facts = len(sub.facts)
         for n in ast.walk(m):
             if isinstance(n, (ast.Yield, ast.YieldFrom)):
                 raise Unsupported(f"generator {m.name} inlined at {self.module.path}:{node.lineno}")
         ev, term, ret = sub.block(m.body)
-        self.fields = sub.fields
+        self.fields = sub.exit_fields(term)
         rv = ret if ret is not None else ("const", None)
         events.append(Inlined(f"{c.name}.{m.name}", ev, node.lineno, c, m, dict(params), rv))
         return rv
